@@ -99,11 +99,24 @@ def check(ctx):
                 ctx.violation("C20.R1", "%s(%s)" % (fname, name), where, "no return reached", key="C20.R1:%s:%s" % (fname, name))
                 continue
             for o in outs:
+                if o["ret"] != "noreturn":
+                    r0 = _resolve(fl, fn, pdb, o["inst"]["val"], o["facts"], o["events"])
+                    if r0[0] == "unknown":
+                        # the evaluation lost track of what is returned (a search through the table with a moving pointer, for
+                        # instance): the other outcomes of this cell may then be paths that cannot happen - no verdict
+                        raise AnalysisBroken("%s(%s): the evaluation cannot tell what the returned pointer designates (%s): the name table is no "
+                                             "longer read by index in a way the cells can follow" % (fname, name, r0[1]))
+            for o in outs:
                 if o["ret"] == "noreturn":
                     ctx.violation("C20.R1", "%s(%s)" % (fname, name), where, "aborts instead of returning a name",
                                   key="C20.R1:%s:%s" % (fname, name))
                     continue
                 r = _resolve(fl, fn, pdb, o["inst"]["val"], o["facts"], o["events"])
+                if r[0] == "unknown":
+                    # the evaluation lost track of what is returned (a search through the table with a moving pointer, for instance):
+                    # the other outcomes of this cell may then be paths that cannot happen - no verdict
+                    raise AnalysisBroken("%s(%s): the evaluation cannot tell what the returned pointer designates (%s): the name table is no longer "
+                                         "read by index in a way the cells can follow" % (fname, name, r[1]))
                 loads = _table_loads(fn, pdb, o, fl)
                 oob = [l for l in loads if l[2] is None or l[2] < 0 or l[2] >= l[3]]
                 good = (r == ("str", name)) and not oob
